@@ -5,6 +5,7 @@ CONSTANTS
   MaxDefs = 2
   MaxGets = 2
   InjLen = 2
+  Wide = {}
   Emit = TRUE
 INVARIANTS InjectConsistent StackEmptyWhenQuiet Precedence NoRecursion OnceBuilt LazyFactories
 VIEW View
